@@ -285,7 +285,7 @@ def shrink_bucket(check, tier, seed, n_examples, signature, seconds=60):
         outcome = guarded_run(check, case)
         for fail in outcome.failures:
             if fail.signature == signature:
-                last['case'] = case
+                last['case'] = fail.case if fail.case is not None else case
                 last['detail'] = fail.detail
                 raise _Found()
         if 'case' not in last and time.monotonic() > t_end:
